@@ -401,4 +401,32 @@ impl<'a> PackHeaderRef<'a> {
 #[allow(missing_docs, unused_imports, dead_code, clippy::all, clippy::pedantic, clippy::nursery)]
 pub mod verif_hooks {
     use super::*;
+
+    /// `PackHeaderRef(blobs).to_binary()`
+    pub fn to_binary(blobs: &[IndexBlob]) -> Result<Vec<u8>, String> {
+        PackHeaderRef(blobs).to_binary().map_err(|e| e.to_string())
+    }
+    /// `PackHeaderRef(blobs).size()`
+    pub fn header_size(blobs: &[IndexBlob]) -> u32 {
+        PackHeaderRef(blobs).size()
+    }
+    /// `PackHeaderRef(blobs).pack_size()`
+    pub fn pack_size(blobs: &[IndexBlob]) -> u32 {
+        PackHeaderRef(blobs).pack_size()
+    }
+    /// `PackHeader::from_binary(data)`
+    pub fn from_binary(data: &[u8]) -> Result<Vec<IndexBlob>, String> {
+        PackHeader::from_binary(data)
+            .map(PackHeader::into_blobs)
+            .map_err(|e| e.to_string())
+    }
+    /// `PackHeader::from_file(be, id, size_hint, pack_size)`
+    pub fn from_file(
+        be: &impl DecryptReadBackend,
+        id: PackId,
+        size_hint: Option<u32>,
+        pack_size: u32,
+    ) -> RusticResult<Vec<IndexBlob>> {
+        PackHeader::from_file(be, id, size_hint, pack_size).map(PackHeader::into_blobs)
+    }
 }
